@@ -59,6 +59,7 @@ type Ctx struct {
 	boxedVars  map[types.Object]bool
 	locks      []string
 	wfDone     map[string]bool
+	sealed     map[string][]int
 	declLog    []string
 	dry        bool // dry run (loop pre-pass that only registers heap sorts): obligations are dropped
 	lazyAxioms []string // stated only in queries that mention one of their function symbols
@@ -367,9 +368,61 @@ func (c *Ctx) rangeAssume(term string, t types.Type) string {
 	case *types.Pointer, *types.Chan, *types.Map, *types.Signature:
 		return fmt.Sprintf("(>= %s 0)", term)
 	case *types.Interface:
-		return fmt.Sprintf("(and (>= (i_tag %s) 0) (=> (= (i_tag %s) 0) (= (i_val %s) 0)))", term, term, term)
+		base := fmt.Sprintf("(and (>= (i_tag %s) 0) (=> (= (i_tag %s) 0) (= (i_val %s) 0)))", term, term, term)
+		if sealed := c.sealedTags(t, u); len(sealed) > 0 {
+			var alts []string
+			alts = append(alts, fmt.Sprintf("(= (i_tag %s) 0)", term))
+			for _, tg := range sealed {
+				alts = append(alts, fmt.Sprintf("(= (i_tag %s) %d)", term, tg))
+			}
+			return "(and " + base + " (or " + strings.Join(alts, " ") + "))"
+		}
+		return base
 	}
 	return ""
+}
+
+// sealedTags: an interface with an unexported method can only be implemented in its own package: the dynamic
+// type of any of its values is one of that package's implementers (or nil).
+func (c *Ctx) sealedTags(t types.Type, u *types.Interface) []int {
+	n, ok := types.Unalias(t).(*types.Named)
+	if !ok || n.Obj().Pkg() == nil {
+		return nil
+	}
+	key := "sealed:" + types.TypeString(t, nil)
+	if c.sealed == nil {
+		c.sealed = map[string][]int{}
+	}
+	if v, ok := c.sealed[key]; ok {
+		return v
+	}
+	unexported := false
+	for i := 0; i < u.NumMethods(); i++ {
+		if !u.Method(i).Exported() {
+			unexported = true
+		}
+	}
+	var out []int
+	if unexported {
+		sc := n.Obj().Pkg().Scope()
+		for _, name := range sc.Names() {
+			tn, ok := sc.Lookup(name).(*types.TypeName)
+			if !ok || tn.IsAlias() {
+				continue
+			}
+			if _, isIf := tn.Type().Underlying().(*types.Interface); isIf {
+				continue
+			}
+			if types.Implements(tn.Type(), u) {
+				out = append(out, c.typeTag(tn.Type()))
+			}
+			if pt := types.NewPointer(tn.Type()); types.Implements(pt, u) && !types.Implements(tn.Type(), u) {
+				out = append(out, c.typeTag(pt))
+			}
+		}
+	}
+	c.sealed[key] = out
+	return out
 }
 
 // ---------------------------------------------------------------------------
